@@ -35,7 +35,9 @@ def raw_equiv(t):
         return None
     return rebuild(t, f)
 
-def z(t): return wrap(strip_trunc(raw_equiv(t)), 256)
+def z(t):
+    from evalr import canon_bytes
+    return wrap(canon_bytes(strip_trunc(raw_equiv(t))), 256)
 
 def run(ctx, rep):
     _run(ctx, rep)
@@ -49,68 +51,75 @@ def _run(ctx, rep):
     rep.floor('tables with a TableHeader', len(tables), 18)
     n_ledger = 0; n_steps = 0
     for T in tables:
-        for s in T.ctors + T.steps:
-            rep.analysed.add(s.fn['def'])
-            for c in s.I.calls_seen: rep.analysed.add(c)
         if T.has_ledger: n_ledger += 1
-        rep.ob('anchor', T.ty + ' constructors', len(T.ctors) >= 1, 'no public constructor found for ' + T.ty)
-        for s in T.ctors:
-            subj = s.fn['def']
-            if s.tops or s.E_post is None:
-                rep.undecided('O-ctor', subj, s.tops, s.fn['sp']); continue
-            Ssum, ck = byte_sum_excluding(s.E_post, 9)
-            hck = T.header(s.post).fields['checksum']
-            if ck is None or ck[1] != hck:
-                rep.ob('O-field', subj, False, 'byte 9 of the image is not the header checksum field', sp=s.fn['sp']); continue
-            facts_ = [c for c, _ in s.I.st.facts]
-            tot = z(add(Ssum, hck))
-            ok, w = equal(tot, ZERO, facts_)
-            rep.ob('O-ctor', subj, ok, 'after %s the image sums to %s (mod 256), not 0' % (s.fn['name'], show(tot)), sp=s.fn['sp'],
-                   detail={'image_sum_mod_256': show(tot), 'stored_checksum': show(hck), 'witness': w})
-            if T.has_ledger:
-                led = s.post.fields[T.ledger_field].fields['value']
-                d = z(sub(led, Ssum))
-                ok2, w2 = equal(d, ZERO, facts_)
-                rep.ob('O-ctor-ledger', subj, ok2, 'after %s the running sum differs from the byte sum of the image by %s' % (s.fn['name'], show(d)), sp=s.fn['sp'],
-                       detail={'ledger': show(z(led)), 'image_sum_without_checksum_byte': show(z(Ssum)), 'difference': show(d), 'witness': w2})
-        for s in T.steps:
-            subj = s.fn['def']; n_steps += 1
-            if s.tops or s.E_post is None or s.E_pre is None:
-                rep.undecided('O-step', subj, s.tops, s.fn['sp']); continue
-            S0, ck0 = byte_sum_excluding(s.E_pre, 9); S1, ck1 = byte_sum_excluding(s.E_post, 9)
-            hck1 = T.header(s.post).fields['checksum']
-            L0 = T.header(s.pre).fields['length']
-            facts_ = [c for c, _ in s.facts] + [cmp('eq', L0, strip_trunc(seqlen(s.E_pre)))]
-            if T.has_ledger:
-                l0 = s.pre.fields[T.ledger_field].fields['value']; l1 = s.post.fields[T.ledger_field].fields['value']
-                dl = z(sub(l1, l0)); dS = z(sub(S1, S0))
-                resid = z(sub(sub(l1, l0), sub(S1, S0)))
-                ok, w = equal(resid, ZERO, facts_)
-                rep.ob('O-step', subj, ok, '%s changes the running sum by %s but the image bytes by %s (residual %s)' % (s.fn['name'], show(dl), show(dS), show(resid)), sp=s.fn['sp'],
-                       detail={'delta_ledger': show(dl), 'delta_image_sum': show(dS), 'residual': show(resid), 'witness': w})
-                # the stored byte is refreshed from the final ledger (or nothing that is emitted changed)
-                ok2, w2 = equal(z(add(hck1, l1)), ZERO, facts_)
-                if not ok2 and dS == ZERO and dl == ZERO and hck1 == T.header(s.pre).fields['checksum']: ok2 = True
-                rep.ob('O-refresh', subj, ok2, 'after %s header.checksum is %s, not the complement of the running sum %s' % (s.fn['name'], show(hck1), show(z(l1))), sp=s.fn['sp'],
-                       detail={'stored_checksum': show(hck1), 'ledger': show(z(l1)), 'witness': w2})
-            else:
-                tot = z(add(S1, hck1))
-                ok, w = equal(tot, ZERO, facts_)
-                rep.ob('O-scratch', subj, ok, 'after %s the image sums to %s (mod 256), not 0' % (s.fn['name'], show(tot)), sp=s.fn['sp'],
-                       detail={'image_sum_mod_256': show(tot), 'witness': w})
-        # O-typestate: tables without mutators expose nothing through which the image could change
-        if not T.steps:
-            pubf = [n for n, fd in T.fields.items() if fd['vis'] == 'pub']
-            rep.ob('O-typestate', T.ty, not pubf, 'immutable-after-new table %s has public fields %s' % (T.ty, pubf))
-        # O-stable: only the table's own methods write its fields
-        ws = writers_of(f, T.ty)
-        own = {b['def'] for b in T.fns.values()} | {d for d, b in f.bodies.items() if b.get('derived')}
-        own |= {d for d in ws if any(d.startswith(o + '::{closure') for o in own)}
-        extra = sorted(ws - own)
-        rep.ob('O-stable', T.ty, not extra, 'functions outside impl %s write its fields: %s' % (T.ty, extra), detail={'writers': sorted(ws)})
+        n_steps += table_obligations(f, rep, T)
     rep.floor('tables with a running Checksum', n_ledger, 13)
     rep.floor('public table mutators', n_steps, 40)
     fadt(f, rep); rsdp(f, rep); sdt(f, rep)
+
+def table_obligations(f, rep, T):
+    """ledger / from-scratch obligations of one table (also used by C12 for the SLIT's checksum clause)"""
+    n_steps = 0
+    for s in T.ctors + T.steps:
+        rep.analysed.add(s.fn['def'])
+        for c in s.I.calls_seen: rep.analysed.add(c)
+    rep.ob('anchor', T.ty + ' constructors', len(T.ctors) >= 1, 'no public constructor found for ' + T.ty)
+    for s in T.ctors:
+        subj = s.fn['def']
+        if s.tops or s.E_post is None:
+            rep.undecided('O-ctor', subj, s.tops, s.fn['sp']); continue
+        Ssum, ck = byte_sum_excluding(s.E_post, 9)
+        hck = T.header(s.post).fields['checksum']
+        if ck is None or ck[1] != hck:
+            rep.ob('O-field', subj, False, 'byte 9 of the image is not the header checksum field', sp=s.fn['sp']); continue
+        facts_ = [c for c, _ in s.I.st.facts]
+        tot = z(add(Ssum, hck))
+        ok, w = equal(tot, ZERO, facts_)
+        rep.ob('O-ctor', subj, ok, 'after %s the image sums to %s (mod 256), not 0' % (s.fn['name'], show(tot)), sp=s.fn['sp'],
+               detail={'image_sum_mod_256': show(tot), 'stored_checksum': show(hck), 'witness': w})
+        if T.has_ledger:
+            led = s.post.fields[T.ledger_field].fields['value']
+            d = z(sub(led, Ssum))
+            ok2, w2 = equal(d, ZERO, facts_)
+            rep.ob('O-ctor-ledger', subj, ok2, 'after %s the running sum differs from the byte sum of the image by %s' % (s.fn['name'], show(d)), sp=s.fn['sp'],
+                   detail={'ledger': show(z(led)), 'image_sum_without_checksum_byte': show(z(Ssum)), 'difference': show(d), 'witness': w2})
+    for s in T.steps:
+        subj = s.fn['def']; n_steps += 1
+        if s.tops or s.E_post is None or s.E_pre is None:
+            rep.undecided('O-step', subj, s.tops, s.fn['sp']); continue
+        S0, ck0 = byte_sum_excluding(s.E_pre, 9); S1, ck1 = byte_sum_excluding(s.E_post, 9)
+        hck1 = T.header(s.post).fields['checksum']
+        L0 = T.header(s.pre).fields['length']
+        facts_ = [c for c, _ in s.facts] + [cmp('eq', L0, strip_trunc(seqlen(s.E_pre)))]
+        if T.has_ledger:
+            l0 = s.pre.fields[T.ledger_field].fields['value']; l1 = s.post.fields[T.ledger_field].fields['value']
+            dl = z(sub(l1, l0)); dS = z(sub(S1, S0))
+            resid = z(sub(sub(l1, l0), sub(S1, S0)))
+            ok, w = equal(resid, ZERO, facts_)
+            rep.ob('O-step', subj, ok, '%s changes the running sum by %s but the image bytes by %s (residual %s)' % (s.fn['name'], show(dl), show(dS), show(resid)), sp=s.fn['sp'],
+                   detail={'delta_ledger': show(dl), 'delta_image_sum': show(dS), 'residual': show(resid), 'witness': w})
+            # the stored byte is refreshed from the final ledger (or nothing that is emitted changed)
+            ok2, w2 = equal(z(add(hck1, l1)), ZERO, facts_)
+            if not ok2 and dS == ZERO and dl == ZERO and hck1 == T.header(s.pre).fields['checksum']: ok2 = True
+            rep.ob('O-refresh', subj, ok2, 'after %s header.checksum is %s, not the complement of the running sum %s' % (s.fn['name'], show(hck1), show(z(l1))), sp=s.fn['sp'],
+                   detail={'stored_checksum': show(hck1), 'ledger': show(z(l1)), 'witness': w2})
+        else:
+            tot = z(add(S1, hck1))
+            ok, w = equal(tot, ZERO, facts_)
+            rep.ob('O-scratch', subj, ok, 'after %s the image sums to %s (mod 256), not 0' % (s.fn['name'], show(tot)), sp=s.fn['sp'],
+                   detail={'image_sum_mod_256': show(tot), 'witness': w})
+    # O-typestate: tables without mutators expose nothing through which the image could change
+    if not T.steps:
+        pubf = [n for n, fd in T.fields.items() if fd['vis'] == 'pub']
+        rep.ob('O-typestate', T.ty, not pubf, 'immutable-after-new table %s has public fields %s' % (T.ty, pubf))
+    # O-stable: only the table's own methods write its fields
+    ws = writers_of(f, T.ty)
+    own = {b['def'] for b in T.fns.values()} | {d for d, b in f.bodies.items() if b.get('derived')}
+    own |= {d for d in ws if any(d.startswith(o + '::{closure') for o in own)}
+    extra = sorted(ws - own)
+    rep.ob('O-stable', T.ty, not extra, 'functions outside impl %s write its fields: %s' % (T.ty, extra), detail={'writers': sorted(ws)})
+
+    return n_steps
 
 def writers_of(f, ty):
     """functions containing an assignment to, or a &mut borrow of, a field of `ty`"""
